@@ -1253,6 +1253,13 @@ fn sub(out: &mut Vec<GSpec>) {
         rules.push(RuleSpec::new(&format!("c{}", k), 'C', b));
         rules.push(RuleSpec::new(&format!("s{}", k), 'S', b));
     }
+    // rule tokens that depend on where the sub-input starts and ends
+    rules.push(RuleSpec::new("xa", 'N', "\"a\""));
+    rules.push(RuleSpec::new("xf", 'N', "SOI ~ xa"));
+    rules.push(RuleSpec::new("xe", 'N', "xf | xa ~ xa?"));
+    rules.push(RuleSpec::new("xs", 'S', "(xf | xa)+"));
+    rules.push(RuleSpec::new("xl", 'N', "xa ~ EOI"));
+    rules.push(RuleSpec::new("xm", 'C', "(xl | xa)+"));
     assert!(valid(&rules));
     out.push(GSpec {
         id: "sub_1".into(),
